@@ -175,8 +175,20 @@ func (c *p5) keyFromSameMap(fn *Func, ie *ast.IndexExpr) bool {
 		return false
 	}
 	rs, ok := as[0].(*ast.RangeStmt)
+	var elemOf ast.Expr
 	if !ok {
-		return false
+		// k := keys[i]: an element of the keys slice taken by index
+		if st, isAs := as[0].(*ast.AssignStmt); isAs && len(st.Lhs) == 1 && len(st.Rhs) == 1 {
+			if ix, isIx := ast.Unparen(st.Rhs[0]).(*ast.IndexExpr); isIx {
+				if _, isSlice := info.TypeOf(ix.X).Underlying().(*types.Slice); isSlice {
+					elemOf = ix.X
+				}
+			}
+		}
+		if elemOf == nil {
+			return false
+		}
+		rs = nil
 	}
 	// map must not be re-assigned inside the loop
 	for _, o := range pathObjects(info, ie.X) {
@@ -189,6 +201,9 @@ func (c *p5) keyFromSameMap(fn *Func, ie *ast.IndexExpr) bool {
 		x = ast.Unparen(x)
 		if fn.Canon(x) == mp {
 			// ranging the map itself: k must be the key variable
+			if rs == nil {
+				return false
+			}
 			if id, ok := rs.Key.(*ast.Ident); ok && info.ObjectOf(id) == ko {
 				return true
 			}
@@ -249,6 +264,9 @@ func (c *p5) keyFromSameMap(fn *Func, ie *ast.IndexExpr) bool {
 			return good && n > 0
 		}
 		return false
+	}
+	if elemOf != nil {
+		return keysFrom(elemOf, 0)
 	}
 	if id, ok := rs.Value.(*ast.Ident); ok && info.ObjectOf(id) == ko {
 		return keysFrom(rs.X, 0)
@@ -905,7 +923,23 @@ func (c *p5) nullableReason(fn *Func, e ast.Expr, depth int) string {
 			return ""
 		}
 		if fn.isParam(o) {
-			return "" // parameters: obligations sit at call sites (not tracked here)
+			// a parameter is as optional as what an in-module caller hands it: an optional
+			// reference passed on unchecked keeps its obligation inside the callee
+			if depth > 1 || fn.Obj == nil || len(fn.Assignments(o)) != 0 {
+				return ""
+			}
+			for _, cs := range c.callers[fn.Obj] {
+				arg := actualFor(fn, o, cs)
+				if arg == nil {
+					continue
+				}
+				if w := c.nullableReason(cs.fn, arg, depth+2); w != "" {
+					if ok, _ := c.nonNilWhy(cs.fn, arg, cs.call, 0); !ok {
+						return "parameter " + o.Name() + ", which receives " + w + " at " + c.p.Pos(cs.call)
+					}
+				}
+			}
+			return ""
 		}
 		if depth > 3 {
 			return ""
